@@ -1,6 +1,7 @@
 package drivers
 
 import (
+	"bufio"
 	"encoding/json"
 	"io"
 	"math/rand"
@@ -133,31 +134,53 @@ func runStreamDirect(id int, c *streamCase, dp *dict.Parser) streamLine {
 
 // eofWithLast: the source returns its last bytes and io.EOF in the same Read call
 func runStreamDirectX(id int, c *streamCase, dp *dict.Parser, eofWithLast bool) streamLine {
-	l := streamLine{Ev: "stream", ID: id, Path: map[bool]string{false: "readmessage", true: "readmessage+eof-with-data"}[eofWithLast], Exact: true, Lens: c.Lens, Total: c.Total, Chunks: c.Chunks, Results: []streamResult{}}
+	return runStreamDirectY(id, c, dp, eofWithLast, false)
+}
+
+// buffered: the caller reads through a bufio.Reader of its own (a captured stream, a file); what ReadMessage has
+// consumed is what the underlying reader gave minus what is still buffered
+func runStreamDirectY(id int, c *streamCase, dp *dict.Parser, eofWithLast, buffered bool) streamLine {
+	path := map[bool]string{false: "readmessage", true: "readmessage+eof-with-data"}[eofWithLast]
+	if buffered {
+		path = "readmessage+bufio"
+	}
+	l := streamLine{Ev: "stream", ID: id, Path: path, Exact: true, Lens: c.Lens, Total: c.Total, Chunks: c.Chunks, Results: []streamResult{}}
 	data := streamBytes(c.Lens)
 	if c.Total < len(data) {
 		data = data[:c.Total]
 	}
 	r := &chunkReader{data: data, chunks: c.Chunks, eofWithLast: eofWithLast}
+	var src io.Reader = r
+	var br *bufio.Reader
+	if buffered {
+		br = bufio.NewReader(r)
+		src = br
+	}
+	pos := func() int {
+		if br != nil {
+			return r.pos - br.Buffered()
+		}
+		return r.pos
+	}
 	p := safely(func() {
 		for k := 0; k < len(c.Lens)+2; k++ {
-			m, err := diam.ReadMessage(r, dp)
+			m, err := diam.ReadMessage(src, dp)
 			if err == io.EOF {
-				l.Results = append(l.Results, streamResult{Kind: "eof", Consumed: r.pos, Pure: true})
+				l.Results = append(l.Results, streamResult{Kind: "eof", Consumed: pos(), Pure: true})
 				return
 			}
 			if err != nil {
 				l.Err = err.Error()
-				l.Results = append(l.Results, streamResult{Kind: "err", Consumed: r.pos, Pure: true})
+				l.Results = append(l.Results, streamResult{Kind: "err", Consumed: pos(), Pure: true})
 				return
 			}
 			idx, pure := classify(m)
-			l.Results = append(l.Results, streamResult{Kind: "msg", Idx: idx, Consumed: r.pos, Pure: pure})
+			l.Results = append(l.Results, streamResult{Kind: "msg", Idx: idx, Consumed: pos(), Pure: pure})
 		}
 	})
 	if p != "" {
 		l.Err = p
-		l.Results = append(l.Results, streamResult{Kind: "panic", Consumed: r.pos})
+		l.Results = append(l.Results, streamResult{Kind: "panic", Consumed: pos()})
 	}
 	return l
 }
@@ -369,6 +392,9 @@ func Stream(a Args) error {
 		out.Emit(runStreamDirect(id, c, vp))
 		if id%3 == 0 {
 			out.Emit(runStreamDirectX(id, c, vp, true))
+		}
+		if id%3 == 1 {
+			out.Emit(runStreamDirectY(id, c, vp, false, true))
 		}
 		out.Emit(runStreamConn(id, c, vp, 0))
 		out.Emit(runStreamConn(id, c, vp, 1+id%2))
